@@ -116,6 +116,7 @@ class Interp:
         self.stack = []
         self.max_depth = max_depth
         self.heap_counter = 0
+        self.const_counter = 0
         self.block_hits = {}
         self.call_edges = set()
         self.trace_blocks = False
@@ -356,6 +357,29 @@ class Interp:
 
     # ------------------------------------------------------------------
     # operands / rvalues
+    def scalar_to_value(self, ty, v):
+        """value of type `ty` whose in-memory representation is the scalar v"""
+        if ty in D.INT_TYPES:
+            return v
+        if ty in ("f32", "f64"):
+            import struct
+            x = struct.unpack("<f", struct.pack("<I", v & 0xFFFFFFFF))[0] if ty == "f32" else \
+                struct.unpack("<d", struct.pack("<Q", v & 0xFFFFFFFFFFFFFFFF))[0]
+            return Fl(x, x, x != x)
+        t = self.p.types.get(strip_generics(ty))
+        if t is not None:
+            if t["kind"] == "Struct":
+                fs = t["variants"][0]["fields"]
+                if len(fs) == 1:
+                    return Agg((self.scalar_to_value(fs[0]["ty"], v),))
+                return TOP
+            if t["kind"] == "Enum":
+                for vi, var in enumerate(t["variants"]):
+                    if var.get("discr", vi) == v and not var["fields"]:
+                        return En({vi: ()})
+                return TOP
+        return TOP
+
     def const_val(self, k):
         if "fn" in k:
             f = k["fn"]
@@ -367,27 +391,32 @@ class Interp:
         if "v" in k:
             if ty in D.INT_TYPES:
                 return k["v"]
-            t = self.p.types.get(strip_generics(ty))
-            if t is not None:
-                if t["kind"] == "Struct":
-                    fs = t["variants"][0]["fields"]
-                    if len(fs) == 1:
-                        return Agg((k["v"],))
-                    return TOP
-                if t["kind"] == "Enum":
-                    for vi, var in enumerate(t["variants"]):
-                        if var.get("discr", vi) == k["v"] and not var["fields"]:
-                            return En({vi: ()})
-                    return TOP
-            return k["v"] if ty in ("bool", "char") else TOP
+            return self.scalar_to_value(ty, k["v"])
         if "str" in k:
             return Str(k["str"])
         if "zst" in k:
             return Agg(())
         if "arr" in k:
-            return Arr(k["arr"])
+            base = ty[1:].strip() if ty.startswith("&") else ty
+            m = re.match(r"^\[(.*); \d+\]$", base)
+            if m:
+                et = m.group(1)
+                if et in D.INT_TYPES:
+                    val = Arr(k["arr"])
+                else:
+                    val = Arr([self.scalar_to_value(et, x) for x in k["arr"]])
+            elif len(k["arr"]) == 1:
+                val = self.scalar_to_value(base, k["arr"][0])
+            else:
+                val = TOP
+            if ty.startswith("&"):
+                return ("constref", val)
+            return val
         if "strs" in k:
-            return Arr([Str(s) if s is not None else TOP for s in k["strs"]])
+            val = Arr([Str(s) if s is not None else TOP for s in k["strs"]])
+            if ty.startswith("&"):
+                return ("constref", val)
+            return val
         if "bytes" in k:
             return Arr(k["bytes"])
         return TOP
@@ -398,7 +427,23 @@ class Interp:
         if "m" in op:
             return self.read_place(st, depth, op["m"], body, ln)
         if "k" in op:
-            return self.const_val(op["k"])
+            v = op.get("_cv")
+            if v is None:
+                v = self.const_val(op["k"])
+                if not isinstance(v, tuple):
+                    try:
+                        op["_cv"] = v
+                    except TypeError:
+                        pass
+            if isinstance(v, tuple) and v and v[0] == "constref":
+                aid = op.get("_aid")
+                if aid is None:
+                    self.const_counter += 1
+                    aid = op["_aid"] = ("const", "promoted", -self.const_counter)
+                if aid not in st.store:
+                    st.store[aid] = v[1]
+                return Ref(aid, (), False)
+            return v
         return TOP
 
     def discr_values(self, v, ty):
